@@ -147,7 +147,7 @@ CODEC_TRUST = COMMON_TRUST + [
 PROPS["C12"] = dict(
     proof_files=CODEC_FILES + ["proofs/CatalogProofs.v", "props/C12.v"],
     props_files=["props/C12.v"],
-    harness="C12", corr_files=["model/CorrCodec.v"],
+    harness="C12", corr_files=["model/CorrCodec.v"], harness_timeout=3000,
     theorems=["C12_roundtrip", "C12_truncation", "C12_writer_fault", "C12_no_overwrite", "C12_kb_roundtrip", "C12_removed_preserved"],
     trusted=CODEC_TRUST,
     assumptions=[
